@@ -572,16 +572,16 @@ def check_C13(tier):
     return c.finish()
 
 
-LEX_ALL = set(range(1, 13))
+LEX_ALL = set(range(1, 15))
 
 
 def check_C20(tier):
     c = Check("C20", tier, "model_checking")
     t = tier == "thorough"
     consts = lambda edits, seps, perm, stmts=LEX_ALL: {"MaxEdits": edits, "StmtIndexes": set(stmts), "SepChoice": set(seps), "PermuteClauses": perm}
-    runs = [("single", consts(1, range(1, 13), True)),
+    runs = [("single", consts(1, range(1, 16), True)),
             ("perms", consts(4, [], True, {1, 3, 4, 5})),
-            ("pairs", consts(2, [1, 4, 7, 8, 11] if not t else range(1, 13), False, {1, 6, 8, 9} if not t else LEX_ALL))]
+            ("pairs", consts(2, [1, 4, 7, 8, 11, 13] if not t else range(1, 16), False, {1, 6, 8, 9, 13} if not t else LEX_ALL))]
     for name, k in runs:
         r = tlc("MC_Lexical", cfg_text(constants=k, invariants=["LexesAsIntended", "Emit"], view="view"), "lexical-" + name, workers=W, timeout=2400)
         expect_holds(r, "Lexical %s (ideal lexer reads every layout variant as the base token stream)" % name); c.add_tlc(r)
@@ -670,6 +670,7 @@ def check_C15(tier):
     engine_run(c, "order-calendar", "CalAggMenu", lines="LinesCal", maxlines=3, maxfiles=1, tdefs=("plain",), invs=["TypeOK", "BatchRefinesSem", "PermLaw"], props=())
     # COUNT(DISTINCT) with up to 10 distinct values and recurrences: long random inputs
     engine_sim(c, "count-distinct", "DistinctCountMenu", lines="LinesDistinct", maxlines=16, num=4000 if t else 500, modes=("batch",), invs=["TypeOK", "BatchRefinesSem"])
+    engine_sim(c, "count-distinct-wide", "DistinctCountMenu", lines="LinesDistinctWide", maxlines=48, num=1000 if t else 70, modes=("batch",), invs=["TypeOK", "BatchRefinesSem"], minlines=40)
     laws_trace(c, 3 if t else 1, 400 if t else 150)
     engine_sim(c, "order", "OrderMenu", lines="LinesRich", maxlines=8, num=1500 if t else 120, modes=("batch",), invs=["TypeOK", "BatchRefinesSem"])
     engine_union(c, t, joins=False)
